@@ -88,7 +88,7 @@ WellShapedTypes(node) ==
        /\ node.v[i][2].k = "arr"
        /\ \A m \in 1..Len(node.v[i][2].v) : WellShapedMember(node.v[i][2].v[m])
 TypesOf(node) ==
-  [t \in ObjKeys(node) |-> LET ms == ObjGet(node, t).v IN [m \in 1..Len(ms) |-> MemberOf(ms[m])]]
+  [t \in ObjKeys(node) |-> LET ms == ObjGet(node, t).v IN Mat([m \in 1..Len(ms) |-> MemberOf(ms[m])])]
 
 Refs(types, t) == {StructRef(types[t][m].kind) : m \in 1..Len(types[t])} \ {""}
 
@@ -161,7 +161,7 @@ EncodeValue(types, kd, node) ==
   ELSE IF kd.k = "array" THEN
     (IF node.k # "arr" THEN Refuse("wrong_kind")
      ELSE IF kd.size >= 0 /\ Len(node.v) # kd.size THEN Refuse("fixed_array_len")
-     ELSE LET es == [i \in 1..Len(node.v) |-> EncodeValue(types, kd.of, node.v[i])]
+     ELSE LET es == Mat([i \in 1..Len(node.v) |-> EncodeValue(types, kd.of, node.v[i])])
               c  == Worst({es[i].c : i \in 1..Len(es)})
           IN  IF c = "reject" THEN es[CHOOSE i \in 1..Len(es) : es[i].c = "reject"]
               ELSE IF c = "open" THEN OpenWord
@@ -180,7 +180,7 @@ HashStructOf(types, t, node) ==
   ELSE IF \E m \in 1..Len(ms) : ~HasKey(node, ms[m].name) THEN Refuse("missing_member")
   ELSE IF ObjKeys(node) # names THEN Refuse("extra_member")
   ELSE
-  LET es == [m \in 1..Len(ms) |-> EncodeValue(types, ms[m].kind, ObjGet(node, ms[m].name))]
+  LET es == Mat([m \in 1..Len(ms) |-> EncodeValue(types, ms[m].kind, ObjGet(node, ms[m].name))])
       c  == Worst({es[m].c : m \in 1..Len(es)})
   IN  IF c = "reject" THEN es[CHOOSE m \in 1..Len(es) : es[m].c = "reject"]
       ELSE IF c = "open" THEN OpenWord
